@@ -27,6 +27,7 @@ type Env struct {
 	depth int
 	loopOld *Snapshot
 	inLoop  bool
+	renaming bool
 }
 
 func (e *Env) with(name string, v Val) *Env {
@@ -207,6 +208,18 @@ func (ex *Exec) identVal(name string, env *Env) (Val, bool) {
 		if p, ok := env.fr.params["&"+name]; ok {
 			if rp, isRef := p.(RefPtr); isRef && rp.Elem != nil {
 				return ex.loadLoc(ex.resolve(rp)), true
+			}
+		}
+		// the variable was renamed since the contract was written: resolve it by position and type
+		if !env.renaming {
+			if cur, ord, isParam, ok := ex.renamedTo(env.fr.fn, name); ok {
+				ex.note(fmt.Sprintf("contract name %s of %s resolved to renamed variable %s", name, relName(env.fr.fn), cur))
+				n := *env
+				n.renaming = true
+				if isParam {
+					return ex.identVal(cur, &n)
+				}
+				return ex.identVal(fmt.Sprintf("%s#%d", cur, ord), &n)
 			}
 		}
 	}
